@@ -343,6 +343,17 @@ func (x *Exec) loopHead(fr *Frame, li *loopInfo, cur *State, ins []edgeIn) {
 			cur.ghost[k] = x.havocShape(k, v)
 		}
 	}
+	if li.lc != nil {
+		for _, sc := range li.lc.Steps {
+			k := "g." + sc.Name
+			if strings.HasPrefix(sc.Name, "$") || sc.Name == "held" || sc.Name == "now" {
+				k = sc.Name
+			}
+			if v, ok := cur.ghost[k]; ok && !log.ghost[k] {
+				cur.ghost[k] = x.havocShape(k, v)
+			}
+		}
+	}
 	for phi := range entryPhi {
 		fr.vals[phi] = x.havocValue(cur, "phi."+phi.Name(), phi.Type())
 	}
